@@ -950,6 +950,7 @@ def run_task(task: dict) -> dict:
             violations.append({"signature": sig, "run_seed": run_seed, "scenario": scenario})
 
     for idx in range(task["first"], task["first"] + task["count"]):
+        core.gc_tick()
         run_seed = core.derive_seed(PROP, task["seed"], layer, idx)
         rng = core.random.Random(run_seed)
         runs += 1
